@@ -44,6 +44,9 @@ func s1Check(prop string, oracles ...func(string, *View) []Violation) func(c *Ca
 		if r.PrepareErr != "" && (c.Program.DefaultM != "" || c.Program.EnumDefault != "") && strings.Contains(r.PrepareErr, "default") {
 			return nil // the generated odd default was refused: a verdict, not a crash
 		}
+		if r.PrepareErr != "" && c.Program.SamePathTags && strings.Contains(r.PrepareErr, "already exists") {
+			return nil // the engine's node ids for tagged values collide: a refusal, wrong but harmless
+		}
 		if r.PrepareErr != "" {
 			return []Violation{viol(prop, "prepare-rejected-generated-program", "", "a well-typed generated program was rejected: %s", r.PrepareErr)}
 		}
@@ -113,6 +116,7 @@ func init() {
 		// loops whose `enabled` value depends on a step that may fail, with outputs fed only by error-path stages
 		{Name: "c01-loop-waits", MinSteps: 2, MaxSteps: 3, Durs: []int64{0, 5}, Foreach: 60, PDisabled: 80, PluginArith: true, Modes: []string{"err", "crash"}, PBad: 50, ErrOutput: true, OnlyErrOutputs: true, MaxOutputs: 2},
 		{Name: "c01-island", MinSteps: 1, MaxSteps: 3, Durs: []int64{0, 5, 50}, Modes: []string{"err", "crash"}, PBad: 60, PDeployFail: 20, HangIsland: true, MaxOutputs: 2},
+		{Name: "c01-island-ignores", MinSteps: 1, MaxSteps: 3, Durs: []int64{0, 5, 50}, Modes: []string{"err"}, PBad: 30, HangIsland: true, IslandIgnoresCancel: true, MaxOutputs: 2},
 		{Name: "c01-errpath-only", MinSteps: 1, MaxSteps: 3, Durs: []int64{0, 5, 50}, Modes: []string{"err", "crash"}, PBad: 30, PDeployFail: 10, PDisabled: 20, ErrOutput: true, OnlyErrOutputs: true, MaxOutputs: 2},
 		{Name: "c01-errpath-island", MinSteps: 1, MaxSteps: 2, Durs: []int64{0, 5}, Modes: []string{"err"}, PBad: 20, ErrOutput: true, OnlyErrOutputs: true, HangIsland: true},
 		{Name: "c01-neverfail-island", MinSteps: 1, MaxSteps: 2, Durs: []int64{0, 5}, ErrOutput: true, OnlyErrOutputs: true, HangIsland: true, StructRefs: true},
@@ -234,8 +238,8 @@ func init() {
 func init() {
 	// ---- C15: optional, one-of and or-disabled inputs mean what their tags say ----
 	c15 := []*ir.Profile{
-		{Name: "c15-tags", ErrorPathWaits: true, MinSteps: 2, MaxSteps: 5, Durs: someDurs, Tags: true, PDisabled: 45, PWaitFor: 20, PDeploySlow: 30, MaxOutputs: 1},
-		{Name: "c15-tags-failing", ErrorPathWaits: true, MinSteps: 2, MaxSteps: 5, Durs: someDurs, Tags: true, Modes: []string{"err", "crash", "alt"}, PBad: 35, PDeployFail: 15, PDisabled: 35, PWaitFor: 20, MaxOutputs: 2, ErrOutput: true},
+		{Name: "c15-tags", SamePathTags: 10, ErrorPathWaits: true, MinSteps: 2, MaxSteps: 5, Durs: someDurs, Tags: true, PDisabled: 45, PWaitFor: 20, PDeploySlow: 30, MaxOutputs: 1},
+		{Name: "c15-tags-failing", SamePathTags: 10, ErrorPathWaits: true, MinSteps: 2, MaxSteps: 5, Durs: someDurs, Tags: true, Modes: []string{"err", "crash", "alt"}, PBad: 35, PDeployFail: 15, PDisabled: 35, PWaitFor: 20, MaxOutputs: 2, ErrOutput: true},
 		{Name: "c15-tags-loops", ErrorPathWaits: true, ItemsFromStep: 30, MinSteps: 2, MaxSteps: 4, Durs: []int64{0, 5, 50}, Tags: true, Foreach: 35, Modes: []string{"err"}, PBad: 25, PDisabled: 25, MaxOutputs: 1},
 		{Name: "c15-tags-hang", MinSteps: 2, MaxSteps: 4, Durs: []int64{0, 5, 50}, Tags: true, PDisabled: 30, SoftHang: true},
 	}
